@@ -4,11 +4,11 @@ nested inside a deterministic wrapper expression, then driven by a script.
 
 stdin  {"enumerate": true}                       -> {"classes": [{name, stochastic, exported}...]} (live isobar.pattern)
        {"cases": [{"inner": SRC, "objs": [[name, SRC]...] | absent, "wrap": SRC-using-X | null, "setup": [OP...], "ops": [OP...],
-                   "refs": [{"setup": [OP...], "n": N}...], "record": bool}]}
+                   "refs": [{"setup": [OP...], "n": N}...], "record": bool, "global_seed": int | absent}]}
        "objs": named objects built in order, each source may use the names before it (a stochastic pattern that CONTAINS
        stochastic patterns: [["I0", "iso.PWhite(0, 9)"], ["X", "iso.PSkip(I0, 0.5)"]]); the last one is X.  Without
        "objs": X = eval(inner).
-OP     "next" | ["reset"] | ["all", m] | ["call", method, [argument sources...]] | ["callon", name, method, [argument sources...]]
+OP     "next" | ["reset"] | ["all", m] | ["copy", n, reset] (q = p.copy(); [q.reset()]; n values of q -> {"c": [obs...]}) | ["call", method, [argument sources...]] | ["callon", name, method, [argument sources...]]
        next / reset / all act on the outer pattern (the wrapper, or X itself), "call" on X (X.seed(3), X.every(5, 'generate'),
        X.set_pattern(iso.PSeries(0, 1)) ...), "callon" on a named object (I0.seed(7)).
 stdout {"cases": [{"build": obs, "events": [obs per op], "refs": [[obs...]...], "epochs": [[[request, result]...]...] | null,
@@ -137,6 +137,21 @@ class Built:
             return self.mark(lambda: observe(lambda: p.all(op[1])))
         if op[0] in ("call", "callon"):
             return self.mark(lambda: observe(lambda: self.call(op)))
+        if op[0] == "copy":
+            # ["copy", n, reset first?]: q = p.copy() (public API), optionally q.reset(), then n values of q; p is left alone
+            def fork():
+                q = p.copy()
+                if op[2]:
+                    q.reset()
+                return q
+            holder = {}
+
+            def mk():
+                holder["q"] = fork()
+            o = observe(mk)
+            if "q" not in holder:
+                return {"c": [o]}
+            return {"c": [observe(lambda: next(holder["q"])) for _ in range(op[1])]}
         raise ValueError(op)
 
 
@@ -146,6 +161,9 @@ def gstate():
 
 def run_case(case):
     out = {"build": None, "events": [], "refs": [], "epochs": None, "owners": None, "opened": None, "global_touched": False, "status": None}
+    if case.get("global_seed") is not None:
+        # argument-less seed() takes its seed from the module-level generator: pinned per case so that a run can be repeated
+        random.seed(case["global_seed"])
     g0 = gstate()
     signal.setitimer(signal.ITIMER_REAL, OP_TIMEOUT * 2)
     try:
